@@ -83,6 +83,20 @@ CLAIMED.update({
                 text="specs/Tunable.tla models NetworkTables as a path -> (type, value) map with the documented key construction and type table; TLC checks instance independence (key injectivity), the writeDefault rule and typed topics over every interleaving of NT-side writes (also before set-up), set-up, python writes and reads on several instances (mutations shared_class_entry / default_always_written / the pre-fix raw_getentry caught); generated classes with tunables of all 13 supported type shapes under components/autonomous/robot names are driven by random and TLC-simulated interleavings, and every read (python attribute and independent NetworkTables read: type string and value) is validated by TLC.",
                 tech="TLA+ spec Tunable + TLC exhaustive invariants; TLC batch trace validation; simulated behaviours replayed"),
 })
+CLAIMED.update({
+    "C08": dict(cat="model_checking", ref="DESIGN.md 4.5, 5/C08",
+                note="Trusted: TLC; harness/drivers/inject_driver.py, which builds each enumerated definition as real classes and calls robotInit(); bindings are identified by object identity against the robot's attributes/components. Non-type annotations and a robot attribute named like a component are outside the enumerated universe.",
+                text="specs/Inject.tla states the lookup rule (name first, then '<component>_<name>', None counts as absent, falsy values are delivered, isinstance check, presets and private names untouched, constructors see robot attributes and earlier components only, everything before any setup()); TLC enumerates the bounded universe of robot definitions (both declaration orders, 13 attribute options, 5 constructor options, robot attributes missing/instance/subclass/wrong type/0/''/None/list, class-level or createObjects-level, autonomous mode attributes), checks the lookup laws, and every enumerated definition is run through the real robotInit() and compared with TLC's required outcome (bindings by identity, or MagicInjectError with no setup() having run).",
+                tech="TLA+ enumeration of robot definitions by TLC with required outcomes; every case built and started with the real MagicRobot"),
+    "C12": dict(cat="model_checking", ref="DESIGN.md 4.7, 5/C12",
+                note="Trusted: TLC; harness/drivers/smdef_driver.py builds each enumerated definition with type()/exec; dir(StateMachine) is read from the class under test; Python's MRO for the generated hierarchies is checked against the order the spec assumes. When several instantiation errors apply any is accepted; a parameterless state function is adopted as accepted.",
+                text="specs/SMDef.tla defines how class bodies merge (base classes first, redefinition replaces in place), when a machine is instantiable, state_names/state_descriptions, legal signatures and forbidden names; TLC enumerates all hierarchies (single, linear, diamond, mix-in) within the bounds, all parameter lists of up to 4 parameters x 4 decorators, every identifier in dir(StateMachine) as a state name, alias / non-StateMachine owner / direct-call cases, checks the merge laws, and every case is built with the real library and compared with TLC's required outcome.",
+                tech="TLA+ enumeration of class definitions by TLC with required outcomes; every case built with the real library"),
+    "C14": dict(cat="model_checking", ref="DESIGN.md 4.8, 5/C14",
+                note="Trusted: TLC; real packages written to a scratch directory under fresh names; DriverStationSim for the FMS flag; chooser options/default read through NetworkTables; wpilib's SendableChooser semantics (unknown selection = no mode; 'selected' outlives choosers). Which duplicate keeps the plain key / which of several defaults is preselected under FMS is left open. start() only when no mode is active.",
+                text="Discovery: specs/SelectorDisc.tla gives the required outcome (raise without FMS on duplicates / several defaults / failing import / failing constructor; with FMS every healthy mode offered, each candidate class constructed exactly once, DEFAULT preselected else None) for every package layout within the bounds x FMS; TLC enumerates them, each is written to disk and loaded by the real selector. Lifecycle: specs/Selector.tla (selection by dashboard string else chooser, one active mode, on_enable / on_iteration(t) / on_disable bracket, nothing after on_disable) is model-checked (mutation caught) and random + TLC-simulated start/periodic/disable histories over a real two-mode package are validated by TLC; run() periods are in the MagicRobot model.",
+                tech="TLA+ enumeration of package layouts with required outcomes run on the real selector; TLA+ lifecycle spec + TLC exhaustive checks + TLC batch trace validation"),
+})
 
 m = {
     "version": 1,
